@@ -13,6 +13,8 @@ From TS Require Import Spec.Lexers Spec.C15Spec Spec.C15Render.
 From TS Require Proofs.C15_Front Proofs.C15_Replace Proofs.C15 Proofs.C15_Render Proofs.C15_Kotlin Proofs.C15_Go Proofs.C15_Swift Proofs.C15_Python Proofs.C15_TypeScript.
 From TS Require Import Spec.C15RenderSwift.
 From TS Require Proofs.C15_SwiftItem.
+From TS Require Import Spec.C15RenderGo.
+From TS Require Proofs.C15_GoItem Proofs.C15_GoFile.
 Import ListNotations.
 
 (* ---- front end (after the repair of parse_comment_attrs): a doc attribute with value v - which is what `/// v`,
@@ -506,3 +508,100 @@ Theorem C15_sw_file_line_free : forall (uc : unicode) (cfg : sw_config),
     c15_contained C15sw LCode (mark (c15_file_pieces C15sw parts)) = true.
 Proof. exact Proofs.C15_SwiftItem.C15_sw_file_line_free. Qed.
 Print Assumptions C15_sw_file_line_free.
+(* ======================= Go, whole items WITHOUT the neutrality hypothesis =======================
+   The Go reference lexer (Spec/Lexers.v cfg_go) reacts in code position to `/` (comment), double and single quote
+   (interpreted string, rune) and the backtick (raw string).  [c15_go_item_ok it] (Spec/C15RenderGo.v, decidable):
+   - every name that go.rs prints bare - the struct's name, the Rust names of fields, enum, variants and alias, generic
+     parameters, tag and content key (they become field names and parts of type / constant names), the identifiers of
+     the types, verbatim type overrides, the name of a constant - is a string of PRINTABLE ASCII characters other than
+     `/`, the two quotes and the backtick ([c15_go_code]: identifiers, dashed keys, texts such as map[string]*Foo).
+     ASCII because these names pass through to_pascal_case / to_camel_case and the acronym rewriting of go.rs:579,
+     which on ASCII input with ASCII acronyms only changes the case of letters (Proofs/GoAcronyms.v; hence
+     [unicode_ok uc], the ASCII behaviour of the Unicode tables, as in Props/C09.v / C12.v);
+   - the JSON key of a field, printed through {:?} inside the raw string of the struct tag, has no control character,
+     no U+2028/9 and no backtick ([c15_go_tag]; quotes, backslashes, `-`, non-ASCII letters are fine);
+   - the wire name of a variant, printed through {:?} in code position, has no control character and no U+2028/9
+     ([c15_lit_str]).
+   With type_mappings targets of the first kind and ASCII acronyms, the text go_write_item prints for ANY printer state
+   and any set of known struct names - helper structs with their struct tags, struct, string enum with its const block,
+   tagged enum with key type, constants, the enum struct, UnmarshalJSON / MarshalJSON with their raw-string tags,
+   accessors, constructors, type alias, constant - is code parts and `// ` fragments whose doc strings are exactly
+   [c15_item_docs_helpers_first it], in this order, and it is contained iff all of them are safe_go (no LF: true of
+   every string the front end carries, C15_front_no_break).  All four item kinds are covered. *)
+Theorem C15_go_item : forall (uc : unicode) (cfg : go_config) custom_structs,
+  unicode_ok uc ->
+  c15_go_mappings_ok (go_type_mappings cfg) = true ->
+  forallb (forallb is_ascii) (go_uppercase_acronyms cfg) = true ->
+  forall it st text st',
+  c15_go_item_ok it = true ->
+  go_write_item uc cfg custom_structs it st = Ok (text, st') ->
+  exists parts,
+    text = text_of (c15_file_pieces C15go parts) /\
+    docs_of (c15_file_pieces C15go parts) = c15_item_docs_helpers_first it /\
+    c15_contained C15go LCode (mark (c15_file_pieces C15go parts)) = forallb safe_go (c15_item_docs_helpers_first it).
+Proof. exact Proofs.C15_GoItem.C15_go_item_all. Qed.
+Print Assumptions C15_go_item.
+
+(* ---- Go, one item whose doc strings are free of line breaks (every parsed item: C15_parsed_*_line_free), on the input
+   class of C15_go_item: the printed text - helper structs under their generated comments included (the names they are
+   built from are printable on the class) - is contained ---- *)
+Theorem C15_go_item_line_free : forall (uc : unicode) (cfg : go_config) custom_structs,
+  unicode_ok uc ->
+  c15_go_mappings_ok (go_type_mappings cfg) = true ->
+  forallb (forallb is_ascii) (go_uppercase_acronyms cfg) = true ->
+  forall it st text st',
+  c15_go_item_ok it = true ->
+  Forall (fun d => safe_line eol_lf_cr d = true) (c15_item_docs it) ->
+  go_write_item uc cfg custom_structs it st = Ok (text, st') ->
+  exists parts,
+    text = text_of (c15_file_pieces C15go parts) /\
+    docs_of (c15_file_pieces C15go parts) = c15_item_docs_helpers_first it /\
+    c15_contained C15go LCode (mark (c15_file_pieces C15go parts)) = true.
+Proof. exact Proofs.C15_GoItem.C15_go_item_line_free. Qed.
+Print Assumptions C15_go_item_line_free.
+
+(* ---- Go, WHOLE FILES (go_generate: the version header line, the package clause, the import block collected while the
+   items are printed, the items in topological order with the printer state threaded through them), no neutrality
+   hypothesis.  For every parsed program whose items are in the class of C15_go_item, with type_mappings targets and
+   acronyms as there and a package name without `/`, quotes and backtick: the generated file is code parts and `// `
+   fragments whose doc strings are - unless no_version_header is set - the line typeshare writes at the top of the file
+   (the version string is printed inside this comment), followed by the doc strings of the items in output order (a
+   permutation of the program's items; helper structs first within an enum); and the file is contained iff all these
+   strings are safe_go.  The import block is neutral whatever the items are: the printer state only ever receives the
+   two import paths go.rs adds itself.  Second theorem: with doc strings free of line breaks (every parsed item) and a
+   version string without a line feed, the file is contained. ---- *)
+Theorem C15_go_file : forall (uc : unicode), unicode_ok uc -> forall (cfg : go_config),
+  c15_go_mappings_ok (go_type_mappings cfg) = true ->
+  forallb (forallb is_ascii) (go_uppercase_acronyms cfg) = true ->
+  c15_plain C15go (go_package cfg) = true ->
+  forall pd text,
+  forallb c15_go_item_ok (items_of pd) = true ->
+  go_generate uc cfg pd = Ok text ->
+  let header := if go_no_version_header cfg then []
+                else [lit "Code generated by typeshare " ++ go_version cfg ++ lit ". DO NOT EDIT."] in
+  exists items parts,
+    topsort (items_of pd) = Ok items /\ Permutation items (items_of pd) /\
+    text = text_of (c15_file_pieces C15go parts) /\
+    docs_of (c15_file_pieces C15go parts) = header ++ flat_map c15_item_docs_helpers_first items /\
+    c15_contained C15go LCode (mark (c15_file_pieces C15go parts)) =
+    forallb safe_go (header ++ flat_map c15_item_docs_helpers_first items).
+Proof. exact Proofs.C15_GoFile.C15_go_file. Qed.
+Print Assumptions C15_go_file.
+Theorem C15_go_file_line_free : forall (uc : unicode), unicode_ok uc -> forall (cfg : go_config),
+  c15_go_mappings_ok (go_type_mappings cfg) = true ->
+  forallb (forallb is_ascii) (go_uppercase_acronyms cfg) = true ->
+  c15_plain C15go (go_package cfg) = true ->
+  forall pd text,
+  forallb c15_go_item_ok (items_of pd) = true ->
+  Forall (fun d => safe_line eol_lf_cr d = true) (flat_map c15_item_docs (items_of pd)) ->
+  safe_go (go_version cfg) = true ->
+  go_generate uc cfg pd = Ok text ->
+  let header := if go_no_version_header cfg then []
+                else [lit "Code generated by typeshare " ++ go_version cfg ++ lit ". DO NOT EDIT."] in
+  exists items parts,
+    topsort (items_of pd) = Ok items /\ Permutation items (items_of pd) /\
+    text = text_of (c15_file_pieces C15go parts) /\
+    docs_of (c15_file_pieces C15go parts) = header ++ flat_map c15_item_docs_helpers_first items /\
+    c15_contained C15go LCode (mark (c15_file_pieces C15go parts)) = true.
+Proof. exact Proofs.C15_GoFile.C15_go_file_line_free. Qed.
+Print Assumptions C15_go_file_line_free.
